@@ -73,7 +73,8 @@ def adversarial_sender(rng, tier, rate_limit=True, gens=False, stops=False):
                 if rng.random() < 0.7:
                     ops.append({'op': 'process', 'i': 0})
             elif r < 0.7:
-                ops.append(fc(1, rng.choice([0, 0, 3]), rng.choice(EDGE_ST)))        # (block size / separation time of a Wait are don't-cares)
+                ops.append(fc(1, rng.choice([0, 0, 3]), rng.choice(EDGE_ST),        # (block size / separation time of a Wait are don't-cares)
+                              dt=rng.choice([0, 0, 0, 1000, max(0, tfc - 1000), tfc + 1000])))
                 if rng.random() < 0.7:
                     ops.append({'op': 'process', 'i': 0})
             elif r < 0.76:
@@ -275,6 +276,64 @@ def judge_abort_rules(sc, lines_in, impl_out):
     return out[:3]
 
 
+def judge_fc_deadline(sc, lines_in, impl_out):
+    """'when no Flow Control arrives within rx_flowcontrol_timeout it abandons the message with the documented error and emits nothing further for
+    it': a ContinueToSend or Wait read while the sender is WAITING (the transmit pass of that process() call begins in WAIT_FC: observed 'txw'),
+    later than N_Bs after the wait began (the last data frame of the message, or the last Wait honoured in time), must be answered with
+    FlowControlTimeoutError - never honoured."""
+    cfg = trace.layer_cfg(sc)
+    a = cfg['addr']
+    p = cfg['params']
+    if not any(op['op'] == 'layer' and op.get('watch_tx') for op in sc['ops']):
+        return []
+    rxh = ref.half(a, 'rx')
+    pre_rx = ref.rx_prefix_len(rxh)
+    prefix = ref.tx_prefix(ref.half(a, 'tx'))
+    tfc = int(p.get('rx_flowcontrol_timeout', 1000)) * 1000000
+    wftmax = p.get('wftmax', 0)
+    out = []
+    wait_start = None
+    timed_out = False
+    for r in trace.records(lines_in, impl_out):
+        late = None
+        fc_seen = None
+        for e in r.events:
+            if e['k'] == 'rx' and ref.reception_condition(rxh, e['id'], e['ext'], e['data']):
+                c = ref.classify(e['data'][pre_rx:])
+                if c[0] == 'fc' and c[1] in (0, 1):
+                    fc_seen = (c[1], e['t'])
+            elif e['k'] == 'txw':
+                if fc_seen is not None and wait_start is not None and fc_seen[1] - wait_start > tfc + 1000:
+                    late = fc_seen
+                elif fc_seen is not None and fc_seen[0] == 1 and wftmax > 0 and wait_start is not None:
+                    wait_start = fc_seen[1]         # a Wait honoured in time restarts the deadline
+                fc_seen = None
+            elif e['k'] == 'err' and e['name'] == 'FlowControlTimeoutError':
+                timed_out = True
+                late = None
+            elif e['k'] == 'done':
+                wait_start = None
+                timed_out = False
+                late = None
+            elif e['k'] == 'tx':
+                c = ref.classify(e['data'][len(prefix):])
+                if c[0] in ('ff', 'cf'):
+                    if late is not None and c[0] == 'cf' and not timed_out:
+                        out.append(('abort', 'a %s Flow Control read %d ns after the sender began to wait (N_Bs = %d ns) was honoured: Consecutive Frames go on, no FlowControlTimeoutError' % (
+                            'Wait' if late[0] == 1 else 'ContinueToSend', late[1] - wait_start, tfc)))
+                        late = None
+                    wait_start = e['t']
+                elif c[0] == 'sf':
+                    wait_start = None
+        if fc_seen is not None and fc_seen[0] == 1 and wftmax > 0 and wait_start is not None:
+            wait_start = max(wait_start, fc_seen[1])    # a Wait honoured while transmitting (not waiting yet) starts the wait then
+        if late is not None and not timed_out and r.status.get('tx') == '1':
+            # still waiting at the end of the pass that read the late frame: it was taken as a reason to go on waiting (a Wait re-arming the timer)
+            out.append(('abort', 'a %s Flow Control read %d ns after the sender began to wait (N_Bs = %d ns) did not end the transmission: still waiting, no FlowControlTimeoutError' % (
+                'Wait' if late[0] == 1 else 'ContinueToSend', late[1] - wait_start, tfc)))
+    return out[:2]
+
+
 class C04(PropBase):
     id = 'C04'
     address_change = 0.15
@@ -327,7 +386,8 @@ class C04(PropBase):
         return trace.project_events(out_line, keep=('tx', 'err', 'done'), status_keys=('tr', 'th'))
 
     def judge(self, sc, lines_in, impl_out):
-        return judge_sender(sc, lines_in, impl_out) + judge_outcomes_exist(sc, lines_in, impl_out) + judge_abort_rules(sc, lines_in, impl_out)
+        return judge_sender(sc, lines_in, impl_out) + judge_outcomes_exist(sc, lines_in, impl_out) + judge_abort_rules(sc, lines_in, impl_out) + \
+            judge_fc_deadline(sc, lines_in, impl_out)
 
     def nontrivial_key(self, sc, lines_in, impl_out):
         shape = []
